@@ -309,8 +309,13 @@ def run_ops(ops, exempt_after_w=True, keep=None):
                         last_cls = c
                         rec = cls[c]([Path(d) / f for f in perm_by(last_files, seed)], mode)
                 elif kind == "restore":
-                    if rec is not None and not rec._closed and len(rec.ih5_files) > len(last_files):
-                        rec.discard_patch()
+                    # undo a probe: drop the patch its open created (if any), then close without commit — the
+                    # outcome reported is that of the close (the driver's `restore` does the same)
+                    try:
+                        if rec is not None and not rec._closed and len(rec.ih5_files) > len(last_files):
+                            rec.discard_patch()
+                    except Exception:  # noqa: BLE001 - e.g. a read-only probe of a record with more files
+                        pass
                     rec.close(commit=False)
                 elif kind == "merge":
                     rec.merge_files(Path(d) / op[1])
